@@ -145,6 +145,28 @@ def twice_pairs():
                "URL /ztw/c\n  PUT\n    PASTE @ztw\n    200 any\n")
         for conv, nl in (("lf", "\n"), ("crlf", "\r\n"), ("cr", "\r")):
             res.append(("%s_three_hosts_%s" % (nm, conv), inl.replace("\n", nl), mcr.replace("\n", nl)))
+    # a PASTE inside EXPLICIT parentheses (of a URL, of a method, of a method in the parentheses of a URL, of a MACRO that is
+    # pasted): what the macro brings is placed by the same rule as written lines - a method with a path of its own cannot
+    # leave the parenthesis, so the inlined form is rejected and the macro form must not be accepted
+    bodies = {"method_with_path": ["GET /zown/path", "  200 any"], "method_without_path": ["POST", "  200 any"],
+              "two_methods_one_with_path": ["PUT", "  200 any", "DELETE /zown/{zi}", "  200 any"], "response": ["201 any"],
+              "path_decl": ["Path", "{", '  "zi": 1', "}"], "type_decl": ["TYPE @zinner any"]}
+    parens = {
+        "url_parens": (["URL /zpar/{zi}", "("], ["  GET", "    200 any", ")"]),
+        "method_parens": (["GET /zpar/{zi}", "("], ["  200 any", ")"]),
+        "url_then_method_parens": (["URL /zpar/{zi}", "(", "  GET", "  ("], ["    200 any", "  )", ")"]),
+        "url_parens_after_child": (["URL /zpar/{zi}", "(", "  PATCH", "    200 any"], [")"]),
+    }
+    for bn, body in bodies.items():
+        for pn, (head, tail) in parens.items():
+            dep = 2 if pn == "url_then_method_parens" else 1
+            mac = "MACRO @zpm\n(\n" + ind(body, 1) + ")\n"
+            inl = "JSIGHT 0.3\n" + "\n".join(head) + "\n" + ind(body, dep) + "\n".join(tail) + "\n"
+            mcr = "JSIGHT 0.3\n" + mac + "\n".join(head) + "\n" + ind(["PASTE @zpm"], dep) + "\n".join(tail) + "\n"
+            res.append(("paste_in_%s_%s" % (pn, bn), inl, mcr))
+            # ... and through a second macro
+            mcr2 = "JSIGHT 0.3\n" + mac + "MACRO @zouter\n(\n  PASTE @zpm\n)\n" + "\n".join(head) + "\n" + ind(["PASTE @zouter"], dep) + "\n".join(tail) + "\n"
+            res.append(("paste_in_%s_%s_nested" % (pn, bn), inl, mcr2))
     return res
 
 
